@@ -384,9 +384,8 @@ theorem prune_idempotent_reachable (p1 : Plan) (S2 : List (Nat × Bool)) (ids' c
 
 /-- **End to end, on the two functions behind the driver's `prune` verb.**  If `prunePipeline`
 (types, roots, identity roots, elaboration, tracked run, `prune_case` table, reachability,
-re-inference, witness pruning) answers `ok q`, the identity roots it labelled the first run with are
-pairwise distinct on the plan, and the pruned plan can be annotated with identity roots, then
-`q.antiDos` — which elaborates the pruned plan with its **re-inferred** arrows and pruned witness
+re-inference, witness pruning) answers `ok q` and the identity roots it labelled the first run with
+are pairwise distinct on the plan, then `q.antiDos` — which elaborates the pruned plan with its **re-inferred** arrows and pruned witness
 bits, runs it and evaluates the anti-DoS conditions at identity-root granularity — answers `"ok"`:
 the re-typed pruned program elaborates, its run does not fail, every reachable node is executed and
 both sides of every remaining case are taken.  (No concrete instance is given in Lean because the
@@ -396,10 +395,38 @@ theorem pipeline_antiDos (jetTy : JetTypes) (jetCmr : String → Option Nat) (je
     (wit : Nat → Option (List Bool)) (p : Plan) (q : Pruned)
     (h : prunePipeline jetTy jetCmr jetSem wit p = .ok q)
     (hinj : ∀ arrows an, inferM jetTy p (fun _ => true) true = .ok arrows → ihrs jetCmr p arrows wit = some an →
-      ∀ j k, j < p.size → k < p.size → (an.getD j (0, 0)).2 = (an.getD k (0, 0)).2 → j = k)
-    (hann : ihrs jetCmr q.plan q.codeArrows (witOfList q.wits wit) ≠ none) :
+      ∀ j k, j < p.size → k < p.size → (an.getD j (0, 0)).2 = (an.getD k (0, 0)).2 → j = k) :
     q.antiDos jetCmr jetSem wit = "ok" :=
-  Prog.pipeline_antiDos jetTy jetCmr jetSem wit p q h hinj hann
+  Prog.pipeline_antiDos jetTy jetCmr jetSem wit p q h hinj
+
+/-- non-vacuity of `antiDoS_driver` / `prune_idempotent_plan`: their hypotheses hold on the example
+program above (identities = plan indices, pairwise distinct; second run labelled `j ↦ j + 100`) -/
+example : (∃ tr2 : Trace, antiDosOK exPlan1 (reachable exPlan1) (fun j => j + 100) tr2 = true) ∧
+    (∃ tr2 : Trace, inferM (fun _ => none) (prunePlan tr2.sides (fun j => j + 100) (fun _ => 1) exPlan1)
+      (fun j => (reachable exPlan1).getD j false) true = .ok exArr1) := by
+  obtain ⟨t, tr, hx, hrun, hs⟩ : ∃ (t : Term .one .one) (tr : Trace),
+      elabNode { plan := exPlan, arrows := exArr, wit := exWit, cmr := #[], jets := fun _ _ => none } 10 8
+        = some ⟨.one, .one, t⟩ ∧
+      evalT t (labOf exPlan (fun j => j) 10 8) .unit = .ok (.unit, tr) ∧ tr.sides = [(7, false)] :=
+    ⟨_, _, rfl, rfl, rfl⟩
+  have ha1 : inferM (fun _ => none) (prunePlan tr.sides (fun j => j) (fun _ => 0) exPlan)
+      (fun j => (reachable (prunePlan tr.sides (fun j => j) (fun _ => 0) exPlan)).getD j false) true = .ok exArr1 := by
+    rw [hs]; exact ex_infer1
+  obtain ⟨t', tr2, _, _, h3⟩ := antiDoS_driver (fun _ => none) exPlan exWit #[] (fun _ _ => none) (fun j => j)
+    (fun j => j + 100) (fun _ => 0) true (pruneWit exWit exArr exArr1) rfl (by decide) ex_infer 10
+    ⟨.one, .one, t⟩ hx .unit .unit tr .unit hrun ha1 (fun j bits _ _ h => h) (fun j k _ _ h => h)
+  obtain ⟨t'', tr2', _, _, _, h4', _⟩ := prune_idempotent_plan (fun _ => none) exPlan exWit #[] (fun _ _ => none)
+    (fun j => j) (fun j => j + 100) (fun _ => 0) (fun _ => 1)
+    (fun j => (reachable (prunePlan tr.sides (fun j => j) (fun _ => 0) exPlan)).getD j false) true
+    (pruneWit exWit exArr exArr1) rfl ex_infer 10 8 ⟨.one, .one, t⟩ hx .unit .unit tr .unit hrun ha1
+    (fun j hj => by have := reachable_lt _ hj; rwa [prunePlan_size] at this)
+    (fun j nd' hj hnd' => reachable_closed _ (wf_prunePlan _ _ _ _ rfl) hj hnd')
+    (fun j bits _ _ h => h)
+    (by rw [hs]; rfl)
+    (fun j hj => by have := reachable_sound _ hj; rwa [prunePlan_size] at this)
+    (fun j k _ _ h => h)
+  rw [hs] at h3 h4'
+  exact ⟨⟨tr2, h3⟩, ⟨tr2', h4'⟩⟩
 
 /-! ## (T) typed terms: the `Pruner` step -/
 
